@@ -2260,9 +2260,36 @@ impl LineBuf {
 		self.buffer.insert_str(idx, new);
 		self.update_graphemes();
 	}
+	/// Replace the first match (or every match, if `global`) of `regex` on each of the given lines
+	///
+	/// Lines are zero-indexed and the range is inclusive. The line's newline is not part of the matched text.
+	fn substitute_lines(&mut self, start_line: usize, end_line: usize, regex: &Regex, new: &str, global: bool) {
+		// The text after a trailing newline is not a line
+		let last_line = self.buffer.lines().count().max(1) - 1;
+		// We go in reverse here, so that the positions of earlier lines stay valid
+		for line_no in (start_line..=end_line.min(last_line)).rev() {
+			let Some((start,end)) = self.line_bounds(line_no) else { continue };
+			let line = self.slice(start..end).unwrap_or_default();
+			let line = line.strip_suffix('\n').unwrap_or(line).to_string();
+			let mut matches = regex
+				.find_iter(&line)
+				.map(|mat| (mat.start(),mat.end()))
+				.collect::<Vec<_>>();
+			if !global {
+				matches.truncate(1);
+			}
+			for (mat_start,mat_end) in matches.into_iter().rev() {
+				// Match offsets are bytes within the line, the buffer is addressed by grapheme
+				let real_start = start + line[..mat_start].graphemes(true).count();
+				let real_end = start + line[..mat_end].graphemes(true).count();
+				self.replace_range(real_start,real_end, new);
+				self.update_graphemes();
+			}
+		}
+	}
 	pub fn replace_range(&mut self, start: usize, end: usize, new: &str) {
 		self.update_graphemes_lazy();
-		let start_byte_pos = self.grapheme_indices().get(start).copied().unwrap_or(0);
+		let start_byte_pos = self.grapheme_indices().get(start).copied().unwrap_or(self.buffer.len());
 		let end_byte_pos = self.grapheme_indices().get(end).copied().unwrap_or(self.buffer.len());
 		self.buffer.replace_range(start_byte_pos..end_byte_pos, new);
 	}
@@ -3819,34 +3846,7 @@ impl LineBuf {
 				// Because of mutable borrowing stuff
 				if let Some(sub) = self.last_substitution.take() {
 					let (ref regex,ref new,flags) = sub;
-					let lines = (start_line..=end_line).rev();
-					for line_no in lines {
-						let Some((start,end)) = self.line_bounds(line_no) else { continue };
-						let line = self.slice(start..end).unwrap();
-						let global = flags.contains(SubFlags::GLOBAL);
-						if global {
-							let line_matches = regex
-								.find_iter(line)
-								.map(|mat| (mat.start(),mat.end()))
-								.collect::<Vec<_>>()
-								.into_iter()
-								.rev();
-							for (mat_start,mat_end) in line_matches {
-								let mat_start = self.find_index_for_byte_pos(mat_start).unwrap();
-								let mat_end = self.find_index_for_byte_pos(mat_end).unwrap();
-								let real_start = start + mat_start;
-								let real_end = start + mat_end;
-								self.replace_range(real_start,real_end, new);
-							}
-						} else {
-							let Some((mat_start,mat_end)) = regex.find(line).map(|mat| (mat.start(),mat.end())) else { continue };
-							let mat_start = self.find_index_for_byte_pos(mat_start).unwrap();
-							let mat_end = self.find_index_for_byte_pos(mat_end).unwrap();
-							let real_start = start + mat_start;
-							let real_end = start + mat_end;
-							self.replace_range(real_start,real_end, new);
-						}
-					}
+					self.substitute_lines(start_line, end_line, regex, new, flags.contains(SubFlags::GLOBAL));
 					// Now we put it back
 					self.last_substitution = Some(sub);
 				}
@@ -3859,35 +3859,7 @@ impl LineBuf {
 				};
 				match Regex::new(&old) {
 					Ok(regex) => {
-						// We go in reverse here
-						let lines = (start_line..=end_line).rev();
-						for line_no in lines {
-							let Some((start,end)) = self.line_bounds(line_no) else { continue };
-							let line = self.slice(start..end).unwrap_or_default();
-							let global = flags.contains(SubFlags::GLOBAL);
-							if global {
-								let line_matches = regex
-									.find_iter(line)
-									.map(|mat| (mat.start(),mat.end()))
-									.collect::<Vec<_>>()
-									.into_iter()
-									.rev();
-								for (mat_start,mat_end) in line_matches {
-									let mat_start = self.find_index_for_byte_pos(mat_start).unwrap();
-									let mat_end = self.find_index_for_byte_pos(mat_end).unwrap();
-									let real_start = start + mat_start;
-									let real_end = start + mat_end;
-									self.replace_range(real_start,real_end, &new);
-								}
-							} else {
-								let Some((mat_start,mat_end)) = regex.find(line).map(|mat| (mat.start(),mat.end())) else { continue };
-								let mat_start = self.find_index_for_byte_pos(mat_start).unwrap();
-								let mat_end = self.find_index_for_byte_pos(mat_end).unwrap();
-								let real_start = start + mat_start;
-								let real_end = start + mat_end;
-								self.replace_range(real_start,real_end, &new);
-							}
-						}
+						self.substitute_lines(start_line, end_line, &regex, &new, flags.contains(SubFlags::GLOBAL));
 						self.last_substitution = Some((regex,new,flags));
 					}
 					Err(e) => {
